@@ -221,6 +221,12 @@ func checkC04(c *Ctx) {
 	c.Rule("C04-R14", "after Resume exactly the modes the application had: each Enable…/Disable… records the request on every path, whatever state the screen is in (a setter that returns early while suspended leaves the old mode to be re-applied)")
 	c.Expect("C04-R14", 6)
 	checkModeSettersAlwaysRemember(c, p, "C04-R14", "tScreen", map[string]string{"EnableMouse": "mouseFlags", "DisableMouse": "mouseFlags", "EnablePaste": "pasteEnabled", "DisablePaste": "pasteEnabled", "EnableFocus": "focusEnabled", "DisableFocus": "focusEnabled"})
+	c.Rule("C04-R15", "after Resume exactly the modes the application had: EnableMouse records the flags it applies (after the no-argument default), not the raw argument")
+	c.Expect("C04-R15", 1)
+	checkMouseFlagsStoredAsApplied(c, p, "C04-R15", "tScreen")
+	c.Rule("C04-R16", "all writes before Stop: a frame is written by draw itself, with the screen's mutex held, so that the restore sequence of disengage cannot be overtaken by a frame still on its way (the flush is in draw, after the reset of the frame buffer; = C13-R16)")
+	c.Expect("C04-R16", 1)
+	checkFrameBufferStartsEmpty(c, p, "C04-R16")
 	c.Rule("C04-R10", "nothing is drawn on a terminal that has been handed back: draw() does nothing unless the screen is running, or every one of its callers (Show, Sync, the resize handler) tests that itself — what Sync writes to a suspended terminal is never undone, Fini finds nothing to restore")
 	c.Expect("C04-R10", 1)
 	c.asRule("C06-R8", "C04-R10", func() { c06DrawProgress(c, p) })
